@@ -2,12 +2,14 @@
 
 M : spec/MC_C14.tla - TLC runs the transcription FindImpl of the element finders (k nearest centroids, inside
     test, fallback to all cells, raise; simplex split + modulo; 1-D digitize) on every lattice / half-lattice
-    point of the universe meshes (graded ones exercise the fallback) and checks FindOK / RaisesOutside.
+    point of the universe meshes (graded ones exercise the fallback) and checks FindOK / RaisesOutside /
+    PointsOfTheDomainAreFound.
     MC_C14_linecomp.cfg is the named deviation of DESIGN section 7 #16 (expected to be violated; known finding).
 R : the (mesh, batch of points) pairs enumerated by TLC are executed on the real `mesh.element_finder()`.
 V : finder results on generated meshes of all first-order classes (graded, anisotropic, sheared, non-convex
     domains, random integer Delaunay, several 1-D components) at vertices, facet points, interior points,
-    lattice points around the mesh: exact clauses FindOK / RaisesOutside in TraceC14.
+    lattice points around the mesh: exact clauses FoundCellContainsPoint / PointsOfTheDomainAreFound /
+    BoundaryPointsAreFound / RaisesOutside in TraceC14.
 L : probes / interpolator / point_source for scalar, vector and tensor valued elements: ProbeRows (exact),
     P1Exact (rational oracle), LocalExpansion, AgreesWithInterpolate, SamePointSameValue, PointSourceOK (Fx).
 Python only drives the library and changes representation; every verdict is a clause name reported by TLC.
@@ -441,7 +443,7 @@ def replay_recipes(out_file, tier, rng):
     for u in json.load(open(out_file)):
         batches = u['batches']
         three = len(u['p'][0]) == 3
-        cap = (60 if three else 150) if tier == 'thorough' else (10 if three else 30)
+        cap = (60 if three else 150) if tier == 'thorough' else (6 if three else 20)
         if len(batches) > cap:
             batches = [batches[j] for j in rng.permutation(len(batches))[:cap]]
         for j in range(0, len(batches), 5):                       # small scenarios shard evenly over the JVMs
